@@ -526,7 +526,7 @@ fn construct_label(path: &[(String, bool)], questions: &HashMap<String, Vec<Stri
 
 pub fn run(tier: Tier) -> i32 {
     let rep = Report::new("C04", tier, "model_checking");
-    rep.set_rule("SCOPE: (a) bundled voice (also re-packed: data blocks in reverse order and/or separated by 0xFF filler): every model (duration, 3 streams x 5 states, 2 GV) x every label of the label space (corpus + one-group recombinations of the cover set + every distinct corpus value of every field group in 2-4 base labels + typed sweeps of every numeric field over 0..N + phoneme symbols from the voice's own patterns) vs an independent reader of the file + HTS wildcard matcher, bit-exact on means/variances/voicing weight and equal on tree/PDF index; (b) every distinct question of the bundled voice x the label space: crate matcher vs wildcard oracle; (c) generated files: all binary tree shapes with <= 3 internal nodes x 4 leaf numberings (in order, reversed, permuted, tied: one PDF reached by several branches) x quoted/unquoted x question triples from a pool of real questions (incl. the regex-fallback ones) x layout deviations (states, streams, vector length, window set, order in which the state trees are listed, numbering and listing order of the internal nodes: sequential, non-contiguous ids, ids counted backwards, yes-subtree rows first; the six orders of the spectrum options; stream keys MGC/F0/BAP instead of MCP/LF0/LPF; header keys in reverse order, data blocks in reverse order and/or separated by filler bytes), checked against both the independent reader and the generator's spec (sentinel floats), on a stride after a Serialize/Deserialize round trip of the loaded voice; (d) metadata, options, windows, engine defaults vs the header; distinct = (file, model, state, label); non-trivial = lookups through a tree with more than one leaf");
+    rep.set_rule("SCOPE: (a) bundled voice (also re-packed: data blocks in reverse order and/or separated by 0xFF filler): every model (duration, 3 streams x 5 states, 2 GV) x every label of the label space (corpus + one-group recombinations of the cover set + every distinct corpus value of every field group in 2-4 base labels + typed sweeps of every numeric field over 0..N + phoneme symbols from the voice's own patterns) vs an independent reader of the file + HTS wildcard matcher, bit-exact on means/variances/voicing weight and equal on tree/PDF index; (b) every distinct question of the bundled voice x the label space: crate matcher vs wildcard oracle; (c) generated files: all binary tree shapes with <= 3 internal nodes x 4 leaf numberings (in order, reversed, permuted, tied: one PDF reached by several branches) x quoted/unquoted x question triples from a pool of real questions (incl. the regex-fallback ones) x layout deviations (states, streams, vector length, window set, order in which the state trees are listed, numbering and listing order of the internal nodes: sequential, non-contiguous ids, ids counted backwards, yes-subtree rows first; the six orders of the spectrum options; stream keys MGC/F0/BAP instead of MCP/LF0/LPF; header keys in reverse order, data blocks in reverse order and/or separated by filler bytes), plus one large file (a 300-node tree with 301 PDFs, 300 questions, one question with 300 patterns), checked against both the independent reader and the generator's spec (sentinel floats), on a stride after a Serialize/Deserialize round trip of the loaded voice; (d) metadata, options, windows, engine defaults vs the header; distinct = (file, model, state, label); non-trivial = lookups through a tree with more than one leaf");
     rep.assume("labels limited to the stated label space; generated trees have at most 3 internal nodes; the label text matched by the oracle is the label's own serialisation");
     // ---------- question pool from the bundled voice ----------
     let v0b = v0_bytes();
@@ -909,6 +909,65 @@ pub fn run(tier: Tier) -> i32 {
             check_engine_defaults(&rep, &name, &bytes);
         }
     });
+    // ---------- one large generated file: a 300-node tree with 301 PDFs, 300 questions, a question with 300 patterns
+    // (counts above 255; everything the small files cannot have) ----------
+    {
+        let mut spec = build_file(&default, &pool, &all_shapes);
+        // the 300-pattern question first (its last pattern matches centre phoneme a), then 290 questions nobody answers
+        // yes to, then the pooled real questions: every label but "a" walks past node 291 to a leaf numbered above 256
+        let mut questions: Vec<(String, Vec<String>)> = vec![("Big-Question".to_string(), (0..299).map(|k| format!("*-zq{}+*", k)).chain(["*-a+*".to_string()]).collect())];
+        let big_q = 0usize;
+        for k in 0..290 {
+            questions.push((format!("Dummy-{}", k), vec![format!("*-zz{}+*", k), format!("*^zz{}-*", k)]));
+        }
+        questions.extend(pool.iter().cloned());
+        let nq = questions.len();
+        // chain along the "no" branch: node k asks question k (pool questions first, then the big one, then dummies)
+        let mut chain = TreeSpec::Leaf(nq + 1);
+        for k in (0..nq).rev() {
+            chain = TreeSpec::node(k, chain, TreeSpec::Leaf(k + 1));
+        }
+        let half = spec.streams[0].vlen * spec.streams[0].windows.len();
+        let mk_pdfs = |st: usize, n: usize| -> Vec<Vec<f32>> {
+            (1..=n)
+                .map(|leaf| {
+                    let mut p: Vec<f32> = (0..half).map(|k| sentinel(1, st, leaf % 16, k, false) + (leaf / 16) as f32 * 1024.0).collect();
+                    p.extend((0..half).map(|k| sentinel(1, st, leaf % 16, k, true) + (leaf / 16) as f32 * 1024.0));
+                    p
+                })
+                .collect()
+        };
+        spec.streams[0].model = ModelSpec { prefix: "mcp".into(), questions, quoted: true, numbering: 0, trees: vec![(2, chain, mk_pdfs(2, nq + 1)), (3, TreeSpec::Leaf(1), mk_pdfs(3, 1))] };
+        let bytes = write(&spec);
+        rep.eval(1);
+        match catch(|| load_voice_bytes(&bytes)) {
+            Ok(Ok(v)) => {
+                let ms = &spec.streams[0].model;
+                let mut leaves = BTreeSet::new();
+                for lc in by_mask.values().cloned().chain(corpus_stride.iter().cloned()).chain(space.iter().filter(|l| labels::centre(&l.text) == "a").take(3)) {
+                    for st in [2usize, 3] {
+                        let (leaf, p) = spec_lookup(ms, st, &lc.text);
+                        leaves.insert((st, leaf));
+                        let (want, _) = split_pdf(p, half, false);
+                        rep.cmp(1);
+                        let got = catch(|| (v.stream_models[0].stream_model.get_parameter(st, &lc.label).clone(), v.stream_models[0].stream_model.get_index(st, &lc.label)));
+                        let ok = match &got {
+                            Err(_) => false,
+                            Ok((g, idx)) => g.parameters.len() == want.len() && g.parameters.iter().zip(&want).all(|(g, w)| g.0.to_bits() == w.0.to_bits() && g.1.to_bits() == w.1.to_bits()) && idx.1 == Some(leaf),
+                        };
+                        if !ok {
+                            rep.violation("large-file-lookup", format!("300-node tree, state {}: crate returns {:?}, the file's tree selects leaf {}", st, got.map(|g| g.1), leaf), json!({"file": "large generated file", "label": lc.text}));
+                            break;
+                        }
+                    }
+                }
+                rep.guard(leaves.iter().any(|(_, l)| *l == big_q + 1) && leaves.iter().filter(|(_, l)| *l > 256).count() >= 2, "the large file's 300-pattern question or its leaves above 256 were never reached");
+                rep.note("large_file", json!({"questions": nq, "tree_nodes": nq, "pdfs": nq + 1, "patterns_in_one_question": 300, "distinct_leaves_reached": leaves.len(), "bytes": bytes.len()}));
+            }
+            Ok(Err(e)) => rep.violation("large-file-load", format!("a well-formed file with a 300-node tree does not load: {}", e), json!({"file": "large generated file"})),
+            Err(p) => rep.violation("large-file-load", format!("loading a well-formed file with a 300-node tree panics: {}", p), json!({"file": "large generated file"})),
+        }
+    }
     rep.nontrivial.store(rep.comparisons.load(Ordering::Relaxed), Ordering::Relaxed);
     rep.note("generated_files", json!({"files": files.len(), "loaded": files_ok.load(Ordering::Relaxed), "tree_shapes": all_shapes.len(), "question_pool": pool.iter().map(|p| p.0.clone()).collect::<Vec<_>>(), "question_triples": triples.len(), "layouts": layouts.len(), "leaves_reached": leaves_seen.load(Ordering::Relaxed), "leaves_total": leaves_total.load(Ordering::Relaxed)}));
     rep.sample(json!({"voice": "V0", "model": "duration", "state": 2, "label": space[0].text}));
